@@ -25,6 +25,7 @@ import (
 	"math/big"
 	mrand "math/rand"
 	"net/http"
+	"net/http/httptest"
 	"net/url"
 	"path/filepath"
 	"reflect"
@@ -280,8 +281,18 @@ type c15Hist struct {
 	human    []string
 	now      int64
 	enumSync bool
+	allKinds bool // every (kind, transient/standing) combination at every statement index
+	no       int  // number of the history (spreads the fault kinds over the statement indices)
+	syncs    int
 	faults   int
 	stalled  bool
+	// what the primary held at the last synchronisation that reported success, while nothing has
+	// written the cache since (nil otherwise): what outage reads must answer
+	mirrored  *c15Snap
+	restarted bool // a restart since then
+	// the user profiles the primary held at the last copy that reported success (a direct copy or a turn
+	// of the background copier); empty before the first
+	ghost map[string][]byte
 }
 
 func (h *c15Hist) record(op, out string) {
@@ -399,6 +410,21 @@ func (h *c15Hist) load(u int) {
 		want, inCache := h.e.snapC().profiles[c15Users[u]]
 		same := err == nil && ok == inCache && (!ok || h.profIdx(want) == h.poolIdx[c15Hash(c15Canon(p))])
 		c15ReadOracle(h.e, "LoadUserProfile", err, fromCache, same, map[string]interface{}{"history": h.human, "user": c15Users[u]})
+		if h.mirrored != nil && err == nil {
+			wantB, wantOk := h.mirrored.profiles[c15Users[u]]
+			var gotB []byte
+			if ok {
+				var buf bytes.Buffer
+				gob.NewEncoder(&buf).Encode(p)
+				gotB = buf.Bytes()
+				if wantOk { // compare canonical forms (the encoding of maps is not canonical)
+					if c1, e1 := c15CanonBytes(wantB); e1 == nil && c1 == c15Canon(p) {
+						gotB = wantB
+					}
+				}
+			}
+			h.mirrorReadOracle("LoadUserProfile", c15Users[u], ok, gotB, wantOk, wantB)
+		}
 	}
 }
 
@@ -445,6 +471,18 @@ func (h *c15Hist) users() {
 			}
 		}
 		c15ReadOracle(h.e, "GetUsers", err, fromCache, same, map[string]interface{}{"history": h.human})
+		if h.mirrored != nil && err == nil {
+			got := map[string]bool{}
+			for _, n := range names {
+				got[n] = true
+			}
+			for n := range h.mirrored.profiles {
+				if !got[n] {
+					h.mirrorReadOracle("GetUsers", n, false, nil, true, nil)
+					break
+				}
+			}
+		}
 	}
 }
 
@@ -491,13 +529,16 @@ func (h *c15Hist) upsert(u, ty, d int, exp int64) {
 }
 
 // one run of copyDBIntoSQLite with the k-th statement failing (k < 0: none)
-func (h *c15Hist) syncOnce(k int) (fired bool) {
+func (h *c15Hist) syncOnce(k int) (fired bool) { return h.syncFault(k, verifFaultGeneric, false) }
+
+// ... failing with an error of the given kind, that call only or every call from there on
+func (h *c15Hist) syncFault(k, kind int, standing bool) (fired bool) {
 	e := h.e
 	e.settle()
 	h.tick()
 	before := e.snapC()
 	prim := e.snapP()
-	verifFault.arm(k)
+	verifFault.armKind(k, kind, standing)
 	t0 := time.Now()
 	err := copyDBIntoSQLite(e.st.db, e.st.cacheDB, "sqlite")
 	count, fired, kinds := verifFault.disarm()
@@ -512,7 +553,7 @@ func (h *c15Hist) syncOnce(k int) (fired bool) {
 	primAfter := e.snapP()
 	op := "(Sync None)"
 	if k >= 0 {
-		op = fmt.Sprintf("(Sync (Some %d%%nat))", k)
+		op = fmt.Sprintf("(Sync (Some (F %d%%nat %s %s)))", k, verifFaultCoq[kind], coqBool(!standing))
 	}
 	h.record(op, fmt.Sprintf("(OSync %s)", coqBool(err == nil)))
 	h.snapshot()
@@ -520,8 +561,18 @@ func (h *c15Hist) syncOnce(k int) (fired bool) {
 	failing := ""
 	if fired && k < len(kinds) {
 		failing = kinds[k]
+		if kind != verifFaultGeneric {
+			failing += "/" + verifFaultNames[kind]
+		}
 	}
-	kase := map[string]interface{}{"history": h.human, "fault_at": k, "statements": count, "failing_statement": failing}
+	h.syncs++
+	h.mirrored, h.restarted = nil, false
+	if err == nil {
+		h.mirrored = &prim
+		h.ghost = prim.profiles
+	}
+	kase := map[string]interface{}{"history": h.human, "fault_at": k, "fault_kind": verifFaultNames[kind], "fault_standing": standing,
+		"statements": count, "failing_statement": failing}
 	obs := map[string]interface{}{"error": fmt.Sprint(err), "cache_users": len(after.profiles), "cache_signed": len(after.signed),
 		"primary_users": len(prim.profiles), "primary_signed": len(prim.signed)}
 	if !prim.equal(primAfter) {
@@ -533,7 +584,8 @@ func (h *c15Hist) syncOnce(k int) (fired bool) {
 				What: fmt.Sprintf("copyDBIntoSQLite returned nil but the cache is not the mirror of the primary: %s (primary users=%d signed=%d, cache users=%d signed=%d)", d, len(prim.profiles), len(prim.signed), len(after.profiles), len(after.signed)),
 				Case: kase, Observed: obs})
 		}
-		if fired {
+		// (a transient driver.ErrBadConn is absorbed by database/sql's own repetition of the call)
+		if fired && !(kind == verifFaultBadConn && !standing) {
 			e.res.hit(verifHit{Key: "C15:sync:error-ignored@" + failing, Oracle: "a failed statement makes the synchronisation fail",
 				What: fmt.Sprintf("statement %d (%s) failed and copyDBIntoSQLite returned nil", k, failing), Case: kase, Observed: obs})
 		}
@@ -542,9 +594,16 @@ func (h *c15Hist) syncOnce(k int) (fired bool) {
 			What: fmt.Sprintf("fault at statement %d/%d (%s): cache is neither the old content nor the mirror of the primary (%s)", k, count, failing, c15MirrorDiff(after, want, prim)),
 			Case: kase, Observed: obs})
 	}
+	if err != nil && !after.equal(before) && after.equal(want) {
+		// reported failure, yet the new content is there: the report is what the copier's caller
+		// (and the operator's log) goes by
+		e.res.hit(verifHit{Key: "C15:sync:completed-reported-failed@" + failing, Oracle: "a synchronisation that reports failure leaves the previous content",
+			What: fmt.Sprintf("fault at statement %d/%d (%s): copyDBIntoSQLite returned %v but the cache holds the new content", k, count, failing, err), Case: kase, Observed: obs})
+	}
 	if fired {
 		h.faults++
 		e.res.bump("fault@" + failing)
+		e.res.bump("fault-kind:" + verifFaultNames[kind] + map[bool]string{false: ":transient", true: ":standing"}[standing])
 	} else if c15Writable(e.mode) {
 		e.res.bump("sync-statements:" + strconv.Itoa(count))
 	}
@@ -557,16 +616,156 @@ func (h *c15Hist) sync() {
 		h.syncOnce(-1)
 		return
 	}
+	nCombos := 2 * verifNFaultKinds
 	if h.enumSync {
+		// a fault at statement k for k = 0, 1, ... until it no longer fires; WHAT fails there (kind of
+		// error x transient / standing) goes round so that over the histories every combination meets
+		// every statement of the script; the first histories get all of them at every k
+		base := h.no*3 + h.syncs
 		for k := 0; ; k++ {
-			if !h.syncOnce(k) || h.stalled {
+			fired := false
+			if h.allKinds {
+				for c := 0; c < nCombos; c++ {
+					fired = h.syncFault(k, c%verifNFaultKinds, c >= verifNFaultKinds) || fired
+				}
+			} else {
+				c := (base + k) % nCombos
+				fired = h.syncFault(k, c%verifNFaultKinds, c >= verifNFaultKinds)
+			}
+			if !fired || h.stalled {
 				return
 			}
 		}
 	}
-	if h.syncOnce(h.rng.Intn(26)) {
+	c := h.rng.Intn(nCombos)
+	if h.syncFault(h.rng.Intn(26), c%verifNFaultKinds, c >= verifNFaultKinds) {
 		h.syncOnce(-1)
 	}
+}
+
+// one turn of the real background copier (BackgroundDBCopy: copy, purge of the primary, purge of the
+// cache), optionally with a transient fault at one of the first statements of its copy
+func (h *c15Hist) copier(k, kind int) {
+	e := h.e
+	if !c15Writable(e.mode) {
+		// the copy stops at its first source query (the standing outage, not counted): a one-shot fault
+		// would strike the purge that follows, which is not what the op's fault means
+		k = -1
+	}
+	e.settle()
+	h.tick()
+	prim, before := e.snapP(), e.snapC()
+	verifFault.armKind(k, kind, false)
+	ok, turns := e.copierTurn()
+	_, fired, _ := verifFault.disarm()
+	op := "(Copier None)"
+	if k >= 0 {
+		op = fmt.Sprintf("(Copier (Some (F %d%%nat %s true)))", k, verifFaultCoq[kind])
+	}
+	h.record(op, fmt.Sprintf("(OSync %s)", coqBool(ok)))
+	h.snapshot()
+	after := e.snapC()
+	h.mirrored, h.restarted = nil, false
+	if ok {
+		h.mirrored = &prim
+		h.ghost = prim.profiles
+	}
+	e.res.bump("op:copier-" + c15ModeNames[e.mode])
+	e.res.eval(fmt.Sprintf("copier|%d|%d|%v|%v", len(prim.profiles), len(prim.signed), ok, fired), len(prim.profiles)+len(before.profiles) > 0)
+	kase := map[string]interface{}{"history": h.human, "fault_at": k, "fault_kind": verifFaultNames[kind]}
+	if turns != 1 {
+		e.res.hit(verifHit{Key: "C15:copier:turns", Oracle: "the copier makes one turn, then sleeps its interval", What: fmt.Sprintf("%d turns of the copier before it could be stopped in its sleep", turns), Case: kase})
+	}
+	want := c15Mirror(prim, h.now)
+	if ok && !c15SameProfiles(after.profiles, want.profiles) {
+		e.res.hit(verifHit{Key: "C15:copier:reported-success-not-mirror", Oracle: "a turn of the copier that reports success leaves the cache holding exactly the primary's users",
+			What: fmt.Sprintf("the copier logged success; primary users=%d, cache users=%d (%s)", len(prim.profiles), len(after.profiles), c15MirrorDiff(after, want, prim)), Case: kase})
+	}
+	if !ok && !c15SameProfiles(after.profiles, before.profiles) {
+		e.res.hit(verifHit{Key: "C15:copier:reported-failure-changed-cache", Oracle: "a turn of the copier that reports a failure leaves the previous users in the cache",
+			What: fmt.Sprintf("the copier logged an error; cache users before=%d after=%d", len(before.profiles), len(after.profiles)), Case: kase})
+	}
+	for name, s := range map[string]c15Snap{"primary": e.snapP(), "cache": after} {
+		if name == "primary" && !c15Writable(e.mode) {
+			continue
+		}
+		for key, r := range s.signed {
+			if r.exp < h.now-1 {
+				e.res.hit(verifHit{Key: "C15:cleanup:expired-row-kept:" + name, Oracle: "every turn of the copier purges signed rows that expired",
+					What: fmt.Sprintf("row %s expired %d s ago and is still in the %s after a turn of the copier", key, h.now-r.exp, name), Case: kase})
+			}
+		}
+	}
+}
+
+func c15SameProfiles(a, b map[string][]byte) bool {
+	if len(a) != len(b) {
+		return false
+	}
+	for k, v := range a {
+		if w, ok := b[k]; !ok || !bytes.Equal(v, w) {
+			return false
+		}
+	}
+	return true
+}
+
+// the cache is never more than one completed copy behind: its users are those the primary held when the
+// last copy reported success
+func (h *c15Hist) lagOracle() {
+	got := h.e.snapC().profiles
+	if c15SameProfiles(got, h.ghost) {
+		return
+	}
+	h.e.res.hit(verifHit{Key: "C15:copier:cache-not-last-completed-copy", Oracle: "at every moment the cache holds the users the primary held when the last copy completed",
+		What: fmt.Sprintf("cache users=%d, users at the last completed copy=%d", len(got), len(h.ghost)),
+		Case: map[string]interface{}{"history": h.human}})
+}
+
+// the daemon is restarted on the same data directory
+func (h *c15Hist) restart() {
+	e := h.e
+	bp, bc := e.snapP(), e.snapC()
+	e.restart()
+	ap, ac := e.snapP(), e.snapC()
+	h.record("Restart", "OOk")
+	h.snapshot()
+	h.restarted = true
+	e.res.bump("op:restart-" + c15ModeNames[e.mode])
+	e.res.eval("restart|"+c15ModeKinds[e.mode]+"|"+fmt.Sprint(bp.equal(ap), bc.equal(ac)), len(bc.profiles)+len(bc.signed) > 0)
+	kase := map[string]interface{}{"history": h.human, "mode": c15ModeKinds[e.mode]}
+	obs := map[string]interface{}{"cache_users_before": len(bc.profiles), "cache_users_after": len(ac.profiles), "cache_signed_before": len(bc.signed), "cache_signed_after": len(ac.signed)}
+	if !bc.equal(ac) {
+		shape := "cache-changed"
+		if len(ac.profiles) < len(bc.profiles) || len(ac.signed) < len(bc.signed) {
+			shape = "cache-lost"
+		}
+		e.res.hit(verifHit{Key: "C15:restart:" + shape + ":" + c15ModeKinds[e.mode], Oracle: "a restart of the daemon changes neither store: what the previous process served from the cache is still served",
+			What: fmt.Sprintf("after a restart on the same data directory (primary: %s) the cache holds %d users / %d signed records, before it held %d / %d", c15ModeKinds[e.mode], len(ac.profiles), len(ac.signed), len(bc.profiles), len(bc.signed)),
+			Case: kase, Observed: obs})
+	}
+	if !bp.equal(ap) {
+		e.res.hit(verifHit{Key: "C15:restart:primary-changed:" + c15ModeKinds[e.mode], Oracle: "a restart of the daemon changes neither store",
+			What: "the primary differs after a restart on the same data directory", Case: kase, Observed: obs})
+	}
+}
+
+// after a completed copy, while nothing wrote the cache, an outage read answers what the primary
+// held at that copy — across restarts
+func (h *c15Hist) mirrorReadOracle(fn, user string, found bool, content []byte, wantFound bool, want []byte) {
+	if h.mirrored == nil || h.e.mode == c15Up {
+		return
+	}
+	if found == wantFound && (!found || bytes.Equal(content, want)) {
+		return
+	}
+	key := "C15:mirror-read:" + fn + ":" + c15ModeKinds[h.e.mode]
+	if h.restarted {
+		key = "C15:restart:cache-lost:" + c15ModeKinds[h.e.mode]
+	}
+	h.e.res.hit(verifHit{Key: key, Oracle: "after a completed synchronisation, while the primary is unreachable, reads are answered with what the primary held — also after a restart of the daemon",
+		What: fmt.Sprintf("%s(%s) during the outage (%s, restarted since the copy: %v): found=%v, the primary held it at the completed copy: %v", fn, user, c15ModeKinds[h.e.mode], h.restarted, found, wantFound),
+		Case: map[string]interface{}{"history": h.human, "user": user}})
 }
 
 func (h *c15Hist) cleanup() {
@@ -618,8 +817,14 @@ func (h *c15Hist) randomOp() {
 		err := h.e.st.DeleteSigned(c15Users[u], ty)
 		h.record(fmt.Sprintf("(DelSigned %d%%N %d%%N)", u, ty), errOut(err))
 		h.e.res.bump("op:delsigned")
-	case w < 76:
+	case w < 71:
 		h.sync()
+	case w < 76:
+		if rng.Intn(3) == 0 {
+			h.copier(rng.Intn(8), rng.Intn(verifNFaultKinds))
+		} else {
+			h.copier(-1, 0)
+		}
 	case w < 80:
 		h.cleanup()
 	case w < 84:
@@ -628,6 +833,8 @@ func (h *c15Hist) randomOp() {
 		h.getS(u, ty)
 	case w < 92:
 		h.users()
+	case w < 94:
+		h.restart()
 	default:
 		h.setMode(c15RandomMode(rng, true))
 	}
@@ -831,7 +1038,7 @@ func (f *c15Fixture) probes() []c15Probe {
 				la, ok := e.st.localAuthData["alice"]
 				e.st.Mutex.Unlock()
 				if !ok || la.WebAuthnChallenge == nil {
-					e.t.Fatalf("no webauthn challenge for alice")
+					return nil // the login could not even be begun
 				}
 				return f.jsonRequest(webAuthnAuthFinishPath, "alice", f.dev.assertion(la.WebAuthnChallenge.Challenge, u2fAppID, u2fAppID))
 			}},
@@ -915,15 +1122,18 @@ func TestVerif_C15(t *testing.T) {
 	if len(poolIdx) != len(pool) {
 		t.Fatalf("profile pool is not distinct")
 	}
-	nHist, nEnum := 200, 60
+	nHist, nEnum, nAllKinds := 200, 60, 5
 	if verifThorough() {
-		nHist, nEnum = 2500, 500
+		nHist, nEnum, nAllKinds = 2500, 500, 60
 	}
 	var cases, idx []string
 	totalFaults := 0
 	runHistory := func(i int, body func(h *c15Hist)) {
 		e.wipe()
-		h := &c15Hist{e: e, rng: rng, pool: pool, poolIdx: poolIdx, jwsData: map[string]int{}, enumSync: i < nEnum}
+		h := &c15Hist{e: e, rng: rng, pool: pool, poolIdx: poolIdx, jwsData: map[string]int{}, enumSync: i < nEnum, allKinds: i >= 0 && i < nAllKinds, no: i + 1}
+		if len(res.Hits) > 150 { // plenty of failing inputs already: no more enumeration of fault points
+			h.enumSync, h.allKinds = false, false
+		}
 		body(h)
 		e.setMode(c15Up)
 		totalFaults += h.faults
@@ -972,6 +1182,7 @@ func TestVerif_C15(t *testing.T) {
 			n := 3 + rng.Intn(7)
 			for j := 0; j < n; j++ {
 				h.randomOp()
+				h.lagOracle()
 			}
 			// finish with a completed copy and reads during an outage
 			if !c15Writable(h.e.mode) {
@@ -982,12 +1193,28 @@ func TestVerif_C15(t *testing.T) {
 			} else {
 				h.syncOnce(-1)
 			}
-			h.setMode(c15RandomMode(rng, false))
-			for u := 1; u <= 3; u++ {
+			// ... in every kind of outage in turn; every third round of them restarts the daemon during the
+			// outage (before or after its first read), the reads go on from the cache
+			m := c15Slow + i%(c15NModes-c15Slow)
+			if i >= 2*(c15NModes-c15Slow) && rng.Intn(3) == 0 {
+				m = c15RandomMode(rng, false)
+			}
+			h.setMode(m)
+			nOut := c15NModes - c15Slow
+			withRestart := (i/nOut)%3 == 0
+			if withRestart && (i/nOut)%2 == 0 {
+				h.restart()
+			}
+			h.load(1)
+			if withRestart && (i/nOut)%2 != 0 {
+				h.restart()
+			}
+			for u := 2; u <= 3; u++ {
 				h.load(u)
 			}
 			h.getS(1+rng.Intn(3), 1)
 			h.users()
+			h.lagOracle()
 		})
 	}
 	res.Extra["fault_points"] = totalFaults
@@ -1047,6 +1274,9 @@ func TestVerif_C15(t *testing.T) {
 				pr.pre()
 			}
 			req := pr.req()
+			if req == nil {
+				t.Fatalf("%s: the request cannot be built", pr.name)
+			}
 			e.setMode(m)
 			bp, bc := e.snapP(), e.snapC()
 			rr, _ := e.env.serve(req)
@@ -1078,6 +1308,51 @@ func TestVerif_C15(t *testing.T) {
 			res.bump("probe:" + pr.kind + ":" + c15ModeNames[m])
 		}
 	}
+	// the second-factor checks and the readers again, after a RESTART of the daemon during the outage:
+	// the new process serves them from the cache file the previous one left
+	var hrcases []string
+	for _, pr := range fx.probes() {
+		if pr.kind != "HAuthSave" && pr.kind != "HRead" {
+			continue
+		}
+		for m := c15Slow; m < c15NModes; m++ {
+			if !verifThorough() && pr.kind == "HRead" && m != c15Slow && m != c15Dead && m != c15QueryW {
+				continue
+			}
+			fx.reset()
+			e.setMode(m)
+			cacheBefore := e.snapC()
+			e.restart()
+			if pr.pre != nil {
+				pr.pre()
+			}
+			req := pr.req()
+			bp, bc := e.snapP(), e.snapC()
+			rr := httptest.NewRecorder()
+			rr.Code = 0
+			if req != nil {
+				rr, _ = e.env.serve(req)
+			}
+			time.Sleep(60 * time.Millisecond)
+			e.dirty = false
+			ap, ac := e.snapP(), e.snapC()
+			cls := c15Classify(bp, ap, pr.target)
+			served := req != nil && rr.Code < 400
+			kase := map[string]interface{}{"request": pr.name, "mode": c15ModeNames[m], "target": pr.target, "restarted": true}
+			c15OutageOracle(e, pr.name, m, rr.Code, bp, ap, bc, ac, kase)
+			if !served || !cacheBefore.equal(bc) {
+				e.res.hit(verifHit{Key: "C15:restart:cache-lost:" + c15ModeKinds[m],
+					Oracle: "while the primary is unreachable, logins and second-factor checks continue from the cache — also after a restart of the daemon",
+					What:   fmt.Sprintf("%s with valid credentials answered %d after a restart during the outage (%s); cache unchanged by the restart: %v (users before %d, after %d)", pr.name, rr.Code, c15ModeKinds[m], cacheBefore.equal(bc), len(cacheBefore.profiles), len(bc.profiles)),
+					Case:   kase, Observed: map[string]interface{}{"status": rr.Code, "body": rr.Body.String()[:minInt(rr.Body.Len(), 200)]}})
+			}
+			hrcases = append(hrcases, fmt.Sprintf("(%s, %s, %d%%N, %s, %s)", pr.kind, c15ModeNames[m], cls, coqBool(!cacheBefore.equal(ac)), coqBool(served)))
+			hidx = append(hidx, fmt.Sprintf("%s mode=%s after-restart status=%d primary-class=%d cache-changed=%v", pr.name, c15ModeNames[m], rr.Code, cls, !cacheBefore.equal(ac)))
+			res.eval(fmt.Sprintf("probe-restart|%s|%d|%d|%d", pr.name, m, rr.Code, cls), true)
+			res.bump("probe-after-restart:" + pr.kind + ":" + c15ModeNames[m])
+		}
+	}
+	e.setMode(c15Up)
 	// every route of the regenerated mux, generically
 	fx.reset()
 	form := func() url.Values {
@@ -1123,7 +1398,10 @@ func TestVerif_C15(t *testing.T) {
 	sb.WriteString("From KM Require Import Base.Cases Model.Storage.\n")
 	sb.WriteString("Definition cases : list history_case := [\n" + strings.Join(cases, ";\n") + "\n].\n")
 	sb.WriteString("Definition hcases : list handler_case := [\n" + strings.Join(hcases, ";\n") + "\n].\n")
-	sb.WriteString("Definition c15_ncases := Eval vm_compute in (length cases + length hcases)%nat.\nPrint c15_ncases.\n")
+	sb.WriteString("Definition hrcases : list restart_handler_case := [\n" + strings.Join(hrcases, ";\n") + "\n].\n")
+	sb.WriteString("Definition c15_ncases := Eval vm_compute in (length cases + length hcases + length hrcases)%nat.\nPrint c15_ncases.\n")
+	sb.WriteString("Definition c15_restart_handler_mismatches := Eval vm_compute in mismatches (fun c => negb (restart_handler_ok c)) hrcases.\nPrint c15_restart_handler_mismatches.\n")
+	sb.WriteString("Definition c15_violating := Eval vm_compute in violating_cases cases.\nPrint c15_violating.\n")
 	sb.WriteString("Definition c15_history_mismatches := Eval vm_compute in mismatches (fun c => negb (history_ok c)) cases.\nPrint c15_history_mismatches.\n")
 	sb.WriteString("Definition c15_handler_mismatches := Eval vm_compute in mismatches (fun c => negb (handler_ok c)) hcases.\nPrint c15_handler_mismatches.\n")
 	if err := ioutil.WriteFile(filepath.Join(verifOut(), "CasesC15.v"), []byte(sb.String()), 0644); err != nil {
@@ -1132,7 +1410,9 @@ func TestVerif_C15(t *testing.T) {
 	ioutil.WriteFile(filepath.Join(verifOut(), "CasesC15.idx"), []byte(strings.Join(idx, "\n")+"\n"), 0644)
 	ioutil.WriteFile(filepath.Join(verifOut(), "CasesC15h.idx"), []byte(strings.Join(hidx, "\n")+"\n"), 0644)
 	res.Extra["histories"] = len(cases)
-	res.Extra["handler_probes"] = len(hcases)
+	res.Extra["handler_probes"] = len(hcases) + len(hrcases)
+	res.Extra["restarts"] = e.restarts
+	res.Extra["restart_ms"] = e.restartTime.Milliseconds()
 	res.Extra["gob_failures"] = gobBad
 	res.write(t, "TestVerif_C15")
 }
